@@ -446,3 +446,222 @@ func WithoutTitleElement(d GenDoc) GenDoc {
 	out.Origin += "/no-title-element"
 	return out
 }
+
+// TableShapePages: small tables over the cross-product of what a table can be
+// made of — caption (none, text, blank), <colgroup>/<col>, <thead>, <tfoot>, a
+// first body row of <th> cells (none, all empty, filled, with scope/abbr), row
+// and column counts around the usual limits, a nested table — a dozen tables
+// per page between paragraphs.
+func TableShapePages() []GenDoc {
+	type shape struct {
+		caption, cols, thead, thRow, rows, ncol int
+		nested, tfoot                          bool
+	}
+	var shapes []shape
+	for _, colsKind := range []int{0, 1, 2} { // none, colgroup+col, bare col
+		for _, thead := range []int{0, 1} {
+			for _, thRow := range []int{0, 1, 2, 3} { // none, all empty, filled, filled with scope
+				for _, caption := range []int{0, 1, 2} {
+					for ri, rows := range []int{1, 2, 4, 19, 21} {
+						ncol := []int{1, 2, 3, 4, 5, 6}[(ri+thRow+caption+colsKind)%6]
+						if (caption+thead+ri)%2 == 1 && rows > 4 {
+							continue
+						}
+						shapes = append(shapes, shape{caption, colsKind, thead, thRow, rows, ncol, (ri+thRow)%7 == 6, (thead+caption+ri)%5 == 4})
+					}
+				}
+			}
+		}
+	}
+	var out []GenDoc
+	const per = 12
+	for lo := 0; lo < len(shapes); lo += per {
+		var sb strings.Builder
+		fmt.Fprintf(&sb, "<html><head><title>Table shapes %d</title></head><body><div id=\"content\"><h1>Table shapes %d</h1>\n", lo, lo)
+		for k := lo; k < lo+per && k < len(shapes); k++ {
+			s := shapes[k]
+			sb.WriteString("<p>")
+			for w := 0; w < 30; w++ {
+				fmt.Fprintf(&sb, "ts%d_%d ", k, w)
+			}
+			sb.WriteString("</p>\n<table>")
+			switch s.caption {
+			case 1:
+				fmt.Fprintf(&sb, "<caption>caption %d</caption>", k)
+			case 2:
+				sb.WriteString("<caption> </caption>")
+			}
+			switch s.cols {
+			case 1:
+				sb.WriteString("<colgroup><col><col></colgroup>")
+			case 2:
+				sb.WriteString("<col><col>")
+			}
+			if s.thead == 1 {
+				sb.WriteString("<thead><tr>")
+				for c := 0; c < s.ncol; c++ {
+					fmt.Fprintf(&sb, "<th>h%d</th>", c)
+				}
+				sb.WriteString("</tr></thead>")
+			}
+			sb.WriteString("<tbody>")
+			if s.thRow > 0 {
+				sb.WriteString("<tr>")
+				for c := 0; c < s.ncol; c++ {
+					switch s.thRow {
+					case 1:
+						sb.WriteString([]string{"<th></th>", "<th> </th>"}[c%2])
+					case 2:
+						fmt.Fprintf(&sb, "<th>head%d</th>", c)
+					case 3:
+						fmt.Fprintf(&sb, `<th scope="col" abbr="h">head%d</th>`, c)
+					}
+				}
+				sb.WriteString("</tr>")
+			}
+			for r := 0; r < s.rows; r++ {
+				sb.WriteString("<tr>")
+				for c := 0; c < s.ncol; c++ {
+					if s.nested && r == 0 && c == 0 {
+						fmt.Fprintf(&sb, "<td><table><tr><td>inner%d</td></tr></table></td>", k)
+					} else {
+						fmt.Fprintf(&sb, "<td>cell%d_%d_%d</td>", k, r, c)
+					}
+				}
+				sb.WriteString("</tr>")
+			}
+			sb.WriteString("</tbody>")
+			if s.tfoot {
+				sb.WriteString("<tfoot><tr><td>foot</td></tr></tfoot>")
+			}
+			sb.WriteString("</table>\n")
+		}
+		sb.WriteString("</div></body></html>")
+		out = append(out, GenDoc{Bytes: []byte(sb.String()), URL: "http://example.com/tables/2", Origin: fmt.Sprintf("tableshapes:%d", lo), Features: []string{"table-shapes"}, UTF8: true})
+	}
+	return out
+}
+
+// CaseLengthChars: characters whose lower- or upper-case form has another
+// byte length (Kelvin sign, Angstrom sign, Ohm sign, dotted capital I, capital
+// sharp s, Ⱥ, Ⱦ, long s): whatever lower-cases a string and then cuts the
+// original at an offset measured on the other one meets them.
+var CaseLengthChars = []string{"K", "Å", "Ω", "İ", "ẞ", "Ⱥ", "Ⱦ", "ſ"}
+
+// CaseTwinDocs: for each such character a page whose URL carries it in the host
+// or in the path, with links that spell the same address in the other case,
+// zero to three characters long after the common prefix.
+func CaseTwinDocs() []GenDoc {
+	var out []GenDoc
+	for i, c := range CaseLengthChars {
+		for where := 0; where < 2; where++ {
+			host, dir := c+".example", "/story/"
+			if where == 1 {
+				host, dir = "example.com", "/"+c+"/"
+			}
+			lower := strings.ToLower("http://" + host + dir)
+			upper := strings.ToUpper("http://"+host) + dir
+			var sb strings.Builder
+			fmt.Fprintf(&sb, "<html><head><title>Case twin %d</title></head><body><div id=\"content\"><h1>Case twin heading %d</h1>\n", i, i)
+			for p := 0; p < 3; p++ {
+				sb.WriteString("<p>")
+				for w := 0; w < 45; w++ {
+					fmt.Fprintf(&sb, "ct%d_%d ", i, p*45+w)
+				}
+				sb.WriteString("</p>\n")
+			}
+			sb.WriteString(`</div><div class="pager">`)
+			for _, base := range []string{lower, upper, strings.ToLower("http://" + host + "/")} {
+				for _, tail := range []string{"", "2", "p3", "4/x"} {
+					fmt.Fprintf(&sb, `<a href="%s%s">next page %s</a> `, base, tail, tail)
+				}
+			}
+			sb.WriteString("</div></body></html>")
+			out = append(out, GenDoc{Bytes: []byte(sb.String()), URL: "http://" + host + dir + "1", Origin: fmt.Sprintf("casetwin:%U:%d", []rune(c)[0], where), Features: []string{"case-twin"}, UTF8: true})
+		}
+	}
+	return out
+}
+
+// AttrValueTruncationDocs: structured attribute values (data URLs, srcset
+// lists, URLs with every component, style declarations, refresh directives,
+// embed addresses, dimensions) cut short at every token boundary — after and
+// before each separator — one page per value, holding all its truncations.
+func AttrValueTruncationDocs() []GenDoc {
+	type item struct{ open, attr, value, close string }
+	items := []item{
+		{`<img width="500" height="300" `, "src", "data:image/png;base64,iVBORw0KGgoAAAANSUhEUgAAAAEAAAABCAYAAAAfFcSJAAAADUlEQVR42mNk", ">"},
+		{`<img data-src="/img/real.jpg" `, "src", "DATA:image/gif; BASE64 ,R0lGODlhAQABAIAAAAAAAP///yH5BAEAAAAALAAAAAABAAEAAAIBRAA7", ">"},
+		{`<img src="/img/a.jpg" `, "srcset", "/img/a.jpg 1x, /img/b.jpg 2x, /img/c.jpg 640w, /img/d.jpg 1.5x", ">"},
+		{`<picture><source `, "srcset", "/img/p.webp 1x,/img/p@2.webp 2x", `><img src="/img/p.jpg"></picture>`},
+		{`<a `, "href", "http://user:pw@example.com:8080/story/page/3;p=1?q=1&r=2#frag", `>next page</a>`},
+		{`<a `, "href", "javascript:void(0);", `>next</a>`},
+		{`<img src="/img/s.jpg" `, "style", "width: 100px; height: 50.5px; display: none; background:url(/img/bg.png)", ">"},
+		{`<meta http-equiv="refresh" `, "content", "5; url=http://example.com/next?x=1", ">"},
+		{`<iframe `, "src", "https://www.youtube.com/embed/VIDEOID01?start=10&autoplay=1#t=5", `></iframe>`},
+		{`<object><param name="movie" `, "value", "http://www.youtube.com/v/VIDEOID02&hl=en_US&fs=1&rel=0", `></object>`},
+		{`<embed type="application/x-shockwave-flash" `, "src", "http://www.youtube.com/v/VIDEOID03?version=3&hl=en_US", `>`},
+		{`<iframe `, "src", "//player.vimeo.com/video/12345?title=0&byline=0", `></iframe>`},
+		{`<blockquote class="twitter-tweet"><a `, "href", "https://twitter.com/user/status/1234567890?ref_src=twsrc", `>tweet</a></blockquote>`},
+		{`<video src="/v.mp4" `, "poster", "http://example.com/poster.jpg?w=640&h=360", `></video>`},
+		{`<img src="/img/w.jpg" height="300" `, "width", "400.5px", ">"},
+		{`<table><tr><td `, "colspan", "2;3", `>cell text</td></tr></table>`},
+		{`<meta property="og:image" `, "content", "http://example.com/og.jpg?size=large&v=2", ">"},
+		{`<base `, "href", "http://static.example.org/assets/v2/", ">"},
+		{`<link rel="next" `, "href", "http://example.com/story/page/3?utm=1", ">"},
+		{`<time `, "datetime", "2014-03-01T12:30:00+01:00", `>March 1</time>`},
+		{`<img src="/img/z.jpg" `, "sizes", "(max-width: 600px) 480px, 800px", ">"},
+		{`<a rel="next" `, "href", "/story/page/3/?a=1&b=2#c", `>3</a>`},
+	}
+	const seps = ":;,/?&#=@ .()-"
+	var out []GenDoc
+	for i, it := range items {
+		var cuts []string
+		seen := map[string]bool{}
+		add := func(s string) {
+			if !seen[s] {
+				seen[s] = true
+				cuts = append(cuts, s)
+			}
+		}
+		add("")
+		for k := 0; k < len(it.value); k++ {
+			if strings.IndexByte(seps, it.value[k]) >= 0 {
+				add(it.value[:k])
+				add(it.value[:k+1])
+			}
+		}
+		add(it.value)
+		var sb strings.Builder
+		fmt.Fprintf(&sb, "<html><head><title>Attribute value cuts %d</title>", i)
+		inHead := strings.HasPrefix(it.open, "<meta") || strings.HasPrefix(it.open, "<base") || strings.HasPrefix(it.open, "<link")
+		el := func(v string) string {
+			return it.open + it.attr + `="` + strings.ReplaceAll(v, `"`, "&quot;") + `"` + it.close + "\n"
+		}
+		if inHead {
+			for _, c := range cuts {
+				sb.WriteString(el(c))
+			}
+		}
+		sb.WriteString("</head><body><div id=\"content\">")
+		if !inHead {
+			sb.WriteString(el(cuts[len(cuts)/2]))
+		}
+		fmt.Fprintf(&sb, "<h1>Attribute value cuts %d</h1>\n", i)
+		for p := 0; p < 3; p++ {
+			sb.WriteString("<p>")
+			for w := 0; w < 45; w++ {
+				fmt.Fprintf(&sb, "av%d_%d ", i, p*45+w)
+			}
+			sb.WriteString("</p>\n")
+			if !inHead {
+				for k := p; k < len(cuts); k += 3 {
+					sb.WriteString(el(cuts[k]))
+				}
+			}
+		}
+		sb.WriteString(`</div><div class="pager"><a href="/story/page/1">1</a> <a href="/story/page/3" rel="next">next</a></div></body></html>`)
+		out = append(out, GenDoc{Bytes: []byte(sb.String()), URL: "http://example.com/story/page/2", Origin: fmt.Sprintf("attrcuts:%s:%d", it.attr, i), Features: []string{"attr-value-cuts"}, UTF8: true})
+	}
+	return out
+}
